@@ -16,6 +16,7 @@ Terms are hash-consable nested tuples.  Head symbols:
   ('phi', loopid, name)  ('after', loopid, name)        loop-carried / post-loop values
   ('fstr', (part...))                   part = const str | ('fmt', t, conv, spec)
   ('raise', exc)  ('try', body, ((exc, handler)...))  ('loopret', loopid, body, rest)  ('next',)
+  ('mut', method, old, args, kwargs)    value of a local container after an in-place method call
   ('enter', ctxmgr)  ('yielded', t)  ('anyof', (t...))  ('undef', name)
 """
 from __future__ import annotations
@@ -229,6 +230,9 @@ def _show(t):
         return f"enter({_show(t[1])})"
     if h == "yielded":
         return f"yield {_show(t[1])}"
+    if h == "mut":
+        parts = [_show(a) for a in t[3]] + [f"{k}={_show(v)}" for k, v in t[4]]
+        return f"{_show(t[2])}.{t[1]}!({', '.join(parts)})"
     if h == "anyof":
         return "anyof(" + ", ".join(_show(x) for x in t[1]) + ")"
     return "<" + h + " " + ", ".join(_show(x) for x in t[1:]) + ">"
